@@ -78,25 +78,32 @@ Proof.
   unfold spec_defined, predict, end_block. simpl. intros H.
   apply andb_true_iff in H. destruct H as [H He]. apply andb_true_iff in H. destruct H as [Hwf Hthr].
   fold (tally_block (bp_rf p) (bp_active p) (bp_items p) (st_of p)).
-  assert (Hall : Forall (fun it => tally_item1 (bp_rf p) (bp_active p) it <> None) (bp_items p)).
-  { apply Forall_forall. intros it Hin. rewrite forallb_forall in Hthr. specialize (Hthr it Hin).
-    apply andb_true_iff in Hthr. destruct Hthr as [H1 H2].
-    unfold all_wf in Hwf. rewrite forallb_forall in Hwf.
-    apply tally_item1_total; [apply Hwf; exact Hin| |].
-    - destruct (zkp_threshold _ _ _); [discriminate|discriminate H1].
-    - destruct (safe_thr _ _ _); [discriminate|discriminate H2]. }
-  destruct (tally_block_total _ _ _ [] (st_of p) Hall) as [st1 [vs Ht]]. unfold tally_block. rewrite Ht. simpl.
+  assert (Ht : exists st1 vs, tally_block (bp_rf p) (bp_active p) (bp_items p) (st_of p) = Some (st1, vs) /\
+               ts_cc st1 = bp_cc p + Z.of_nat (length (tallied (bp_active p) (bp_items p)))).
+  { destruct (bp_active p) as [|a0 act] eqn:Ea.
+    - unfold tally_block. rewrite tally_items_noactive. eexists. eexists. split; [reflexivity|]. simpl. lia.
+    - assert (Hne : a0 :: act <> []) by discriminate. simpl in Hthr.
+      assert (Hall : Forall (fun it => tally_item1 (bp_rf p) (a0 :: act) it <> None) (bp_items p)).
+      { apply Forall_forall. intros it Hin. rewrite forallb_forall in Hthr. specialize (Hthr it Hin).
+        apply andb_true_iff in Hthr. destruct Hthr as [H1 H2].
+        unfold all_wf in Hwf. rewrite forallb_forall in Hwf.
+        apply tally_item1_total; [apply Hwf; exact Hin| |].
+        - destruct (zkp_threshold _ _ _); [discriminate|discriminate H1].
+        - destruct (safe_thr _ _ _); [discriminate|discriminate H2]. }
+      destruct (tally_block_total _ _ Hne _ [] (st_of p) Hall) as [st1 [vs Ht]].
+      exists st1, vs. split; [exact Ht|].
+      destruct (tally_block_char _ _ Hne _ _ _ _ _ Ht) as (_ & Hc & _). exact Hc. }
+  destruct Ht as [st1 [vs [Ht Hc]]]. rewrite Ht. simpl.
   destruct (bp_epoch p); [|discriminate].
-  destruct (tally_block_char _ _ _ _ _ _ _ Ht) as (_ & Hc & _). simpl in Hc.
   unfold slash_epoch. rewrite Hc.
-  destruct (slash_threshold (bp_sft p) (bp_cc p + Z.of_nat (length (bp_items p)))); [|discriminate He]. simpl.
+  destruct (slash_threshold (bp_sft p) (bp_cc p + Z.of_nat (length (tallied (bp_active p) (bp_items p))))); [|discriminate He]. simpl.
   destruct (fold_left _ _ _). discriminate.
 Qed.
 
 Lemma verdict_codes rf active its vs :
   Forall2 (item_verdict rf active) its vs ->
   forallb (fun '(it, s) => if item_wf it then s =? vcode (verdict_spec rf it) else true)
-          (combine its (map vcode vs)) = true.
+          (combine its (map ocode vs)) = true.
 Proof.
   induction 1 as [|it v tl vs' [r [Hr Hv]] _ IH]; [reflexivity|]. simpl. rewrite IH, andb_true_r.
   destruct (item_wf it) eqn:E; [|reflexivity].
@@ -133,10 +140,15 @@ Proof.
     destruct (tally_block (bp_rf p) (bp_active p) (bp_items p) (st_of p)) as [[st1 vs1]|] eqn:Ht; simpl in Hp0; [|discriminate].
     assert (Hvs : vs1 = vs).
     { destruct (bp_epoch p); [destruct (slash_epoch true _ _ _ st1) as [[? ?]|]; simpl in Hp0|]; inversion Hp0; reflexivity. }
-    subst vs1. destruct (tally_block_char _ _ _ _ _ _ _ Ht) as (Hv2 & _ & _).
+    subst vs1.
     split; [|split].
     + unfold mon_verdict. rewrite Hpanic, <- Hst, map_length.
-      rewrite <- (F2_length _ _ _ Hv2), Nat.eqb_refl. simpl. apply (verdict_codes _ (bp_active p)). exact Hv2.
+      destruct (bp_active p) as [|a0 act] eqn:Ea.
+      * unfold tally_block in Ht. rewrite tally_items_noactive in Ht. inversion Ht; subst.
+        rewrite map_length, Nat.eqb_refl. reflexivity.
+      * assert (Hne : a0 :: act <> []) by discriminate.
+        destruct (tally_block_char _ _ Hne _ _ _ _ _ Ht) as (Hv2 & _ & _).
+        rewrite <- (F2_length _ _ _ Hv2), Nat.eqb_refl. simpl. apply (verdict_codes _ (a0 :: act)). exact Hv2.
     + unfold mon_faults. rewrite Hpanic. simpl.
       destruct (bp_epoch p) eqn:Ee; [reflexivity|]. simpl.
       destruct (all_wf p) eqn:Ew; [|reflexivity]. simpl.
